@@ -170,7 +170,7 @@ def header_layout(ctx, L, rule="R-LAYOUT"):
         return
     hbytes, rest, send_eff, brun = hb
     for r, i, d, e in cp_runs:
-        pdu1 = any(g[0] == "attr" and g[2] == "is_pdu1_format" and p for g, p in lits(r.guards(i)))
+        pdu1 = any(g[0] == "attr" and g[2] == "is_pdu2_format" and not p for g, p in lits(r.guards(i)))
         kind = "PDU1" if pdu1 else "PDU2"
         def leaf(s, d=d):
             if s[0] == "sub" and s[1][0] == "iter" and is_const(s[2]) and ("c", s[2][1]) in d:
@@ -369,7 +369,7 @@ def misc(ctx, L):
             a = sends[0][1].value[2]
             key = E[2]
             un = ("call", ("attr", SELF, "_buffer_unhash_mpg"), (key,), ())
-            want = (("item", un, 0), sub(E, "cpg"), ("item", un, 2), ("item", un, 3))
+            want = (sub(un, 0), sub(E, "cpg"), sub(un, 2), sub(un, 3))
             if a != want:
                 ok = False
         if ok:
